@@ -48,86 +48,92 @@ func ruleR36(c *Ctx) {
 		printer.Fprint(&buf, c.L.Fset, n)
 		return buf.String()
 	}
+	info := m.Info
+	interesting := regexp.MustCompile(`prefixLen|childrenLen|\bdepth\b|len\(|prefixDiff|splitPrefix|longestPrefix|loLimit`)
+	// bag of (a) calls into the tree/node layer, (b) stores to node/tree fields, to *ref and to the
+	// descent position, (c) comparisons over positions and lengths – each normalised so that
+	// polarity, operand order and the statement form around them do not matter
 	bag := func(tk *TreeKind, u *FuncUnit) map[string]int {
 		out := map[string]int{}
-		add := func(s string) {
+		add := func(kind, s string) {
 			s = norm(tk, s)
-			if s == "" {
-				return
+			if s != "" {
+				out[kind+" "+s]++
 			}
-			out[s]++
 		}
-		var walk func(list []ast.Stmt)
-		walkStmt := func(st ast.Stmt) {}
-		walkStmt = func(st ast.Stmt) {
-			switch x := st.(type) {
-			case *ast.BlockStmt:
-				walk(x.List)
-			case *ast.IfStmt:
-				if x.Init != nil {
-					walkStmt(x.Init)
+		var cmpToken func(e ast.Expr)
+		cmpToken = func(e ast.Expr) {
+			e = ast.Unparen(e)
+			switch x := e.(type) {
+			case *ast.UnaryExpr:
+				if x.Op == token.NOT {
+					cmpToken(x.X)
 				}
-				add("if " + printNode(x.Cond))
-				walk(x.Body.List)
-				if x.Else != nil {
-					walkStmt(x.Else)
-				}
-			case *ast.ForStmt:
-				h := "for "
-				if x.Init != nil {
-					h += printNode(x.Init)
-				}
-				h += "; "
-				if x.Cond != nil {
-					h += printNode(x.Cond)
-				}
-				h += "; "
-				if x.Post != nil {
-					h += printNode(x.Post)
-				}
-				add(h)
-				walk(x.Body.List)
-			case *ast.SwitchStmt:
-				add("switch " + printNode(x.Tag))
-				for _, cl := range x.Body.List {
-					cc := cl.(*ast.CaseClause)
-					var cs []string
-					for _, e := range cc.List {
-						cs = append(cs, printNode(e))
-					}
-					add("case " + strings.Join(cs, ","))
-					walk(cc.Body)
-				}
-			case *ast.LabeledStmt:
-				add("label " + x.Label.Name)
-				walkStmt(x.Stmt)
-			case *ast.AssignStmt:
-				// skip the documented differences: the Transform call and the leaf constructor
-				txt := printNode(x)
-				if strings.Contains(txt, ".Transform(") {
-					return
-				}
-				if len(x.Rhs) == 1 {
-					if _, isLit := x.Rhs[0].(*ast.FuncLit); isLit {
+			case *ast.BinaryExpr:
+				switch x.Op {
+				case token.LAND, token.LOR:
+					cmpToken(x.X)
+					cmpToken(x.Y)
+				case token.LSS, token.GEQ, token.GTR, token.LEQ, token.EQL, token.NEQ:
+					a, b := printNode(x.X), printNode(x.Y)
+					if !interesting.MatchString(a + " " + b) {
 						return
 					}
+					switch x.Op {
+					case token.LSS, token.GEQ: // a < b  and its negation a >= b
+						add("cmp", a+" < "+b)
+					case token.GTR, token.LEQ: // b < a  and its negation a <= b
+						add("cmp", b+" < "+a)
+					default:
+						if a > b {
+							a, b = b, a
+						}
+						add("cmp", a+" == "+b)
+					}
 				}
-				add(txt)
-			case *ast.BranchStmt:
-				if x.Tok == token.BREAK && x.Label == nil {
-					return // the inverted arm order turns a fall-through into a break and vice versa
-				}
-				add(printNode(x))
-			default:
-				add(printNode(x))
 			}
 		}
-		walk = func(list []ast.Stmt) {
-			for _, st := range list {
-				walkStmt(st)
+		ast.Inspect(u.Body, func(n ast.Node) bool {
+			switch x := n.(type) {
+			case *ast.FuncLit:
+				return false // the leaf constructor differs by design
+			case *ast.IfStmt:
+				cmpToken(x.Cond)
+			case *ast.ForStmt:
+				if x.Cond != nil {
+					cmpToken(x.Cond)
+				}
+			case *ast.CallExpr:
+				if isConversion(info, x) {
+					return true
+				}
+				name := m.calleeName(x)
+				if strings.HasSuffix(name, ".Transform") {
+					return true
+				}
+				if f := m.staticCallee(x); (f != nil && f.Pkg() == m.Pkg) || isBuiltinCall(info, x, "copy") {
+					add("call", printNode(x))
+				}
+			case *ast.AssignStmt:
+				for i, l := range x.Lhs {
+					root, through := rootVar(info, l)
+					isPos := false
+					if id, ok := ast.Unparen(l).(*ast.Ident); ok && id.Name == "depth" && x.Tok != token.DEFINE {
+						isPos = true
+					}
+					if through || isPos || (root != nil && root.Name() == "t") {
+						rhs := ""
+						if len(x.Rhs) == len(x.Lhs) {
+							rhs = printNode(x.Rhs[i])
+						}
+						add("store", printNode(l)+" "+x.Tok.String()+" "+rhs)
+					}
+				}
+			case *ast.IncDecStmt:
+				add("store", printNode(x))
 			}
-		}
-		walk(u.Body.List)
+			return true
+		})
 		return out
 	}
 	for _, mn := range []string{"Delete", "Insert", "Search", "Minimum", "Maximum", "All", "Backward", "TopK", "BottomK", "Size"} {
@@ -155,7 +161,7 @@ func ruleR36(c *Ctx) {
 			total += n
 		}
 		if len(onlyA) == 0 && len(onlyB) == 0 {
-			c.r.ok("R36", key, m.pos(cu.Decl.Pos()), fmt.Sprintf("%d statements and conditions identical after renaming (leaf type, key variables, codec field, polarity of the leaf test)", total), "C08", "C09", "C01")
+			c.r.ok("R36", key, m.pos(cu.Decl.Pos()), fmt.Sprintf("%d node-layer calls, tree/node stores and position comparisons identical after renaming (leaf type, key variables, codec field); polarity, operand order and statement form are ignored", total), "C08", "C09", "C01")
 		} else {
 			c.r.bad("R36", key, m.pos(cu.Decl.Pos()), fmt.Sprintf("the two copies of the algorithm disagree – only in %s: %s; only in the template instantiation: %s. One of them carries a slip (or was changed alone)", coll.File, joinShort(onlyA, 4), joinShort(onlyB, 4)), "C08", "C09", "C01")
 		}
